@@ -250,16 +250,27 @@ C14_NodeBaseObs ==
        /\ r.rc = Sum(on({"Releasing"}), LAMBDA p : RC(p)) + Sum(twice, LAMBDA p : RC(p)) - Sum(on({"Pipelined"}), LAMBDA p : RC(p))
        /\ r.ug = Sum(all, LAMBDA p : RG(p))
 
+\* resource claims (DRA): what the session's DRA manager counts as allocated is exactly what the claims hold - no device
+\* is allocated to two ResourceClaim objects, and the devices counted as in use on a node (the allocator's input) are
+\* the devices of that node's pool in the allocations of the claims
+ClaimPods == {p \in DOMAIN real.claims.pods : real.claims.pods[p].obj # ""}
+C14_ClaimDevicesObs ==
+  /\ \A p, q \in ClaimPods : real.claims.pods[p].obj # real.claims.pods[q].obj =>
+         SeqSet(real.claims.pods[p].odev) \cap SeqSet(real.claims.pods[q].odev) = {}
+  /\ \A n \in DOMAIN real.claims.inuse :
+         {n \o "/" \o d : d \in SeqSet(real.claims.inuse[n])} =
+           UNION {SeqSet(real.claims.pods[p].odev) : p \in {x \in ClaimPods : real.claims.pods[x].onode = n}}
+
 \* StopOn selects the properties whose violation ends a scenario: "C13", "C14" or "all"
 Healthy == /\ (StopOn # "C14") => (C13_RollbackObs /\ C13_DiscardObs /\ C13_CommitNetObs /\ C13_UnevictObs /\ C13_ClaimsObs /\ C13_NoPhantomObs)
-           /\ (StopOn # "C13") => (C14_JobObs /\ C14_QueueObs /\ C14_AcceptedObs /\ C14_VectorObs /\ C14_NodeBaseObs)
+           /\ (StopOn # "C13") => (C14_JobObs /\ C14_QueueObs /\ C14_AcceptedObs /\ C14_VectorObs /\ C14_NodeBaseObs /\ C14_ClaimDevicesObs)
 
 (***************************************************************************)
 (* Drift monitors: model prediction vs real                                *)
 (***************************************************************************)
 \* after a property violation (of either family) the real code has left the specified behaviour: the model's
 \* predictions are then not comparable any more (no drift verdict for the rest of the scenario)
-AllC == C13_RollbackObs /\ C13_DiscardObs /\ C13_CommitNetObs /\ C13_UnevictObs /\ C13_ClaimsObs /\ C13_NoPhantomObs /\ C14_JobObs /\ C14_QueueObs /\ C14_AcceptedObs /\ C14_VectorObs /\ C14_NodeBaseObs
+AllC == C13_RollbackObs /\ C13_DiscardObs /\ C13_CommitNetObs /\ C13_UnevictObs /\ C13_ClaimsObs /\ C13_NoPhantomObs /\ C14_JobObs /\ C14_QueueObs /\ C14_AcceptedObs /\ C14_VectorObs /\ C14_NodeBaseObs /\ C14_ClaimDevicesObs
 Clean == sync /\ ~taint /\ AllC
 D_Pods   == Clean => RPods(real) = pod
 D_Nodes  == Clean => RNodes(real) = node
@@ -294,7 +305,7 @@ Report ==
   /\ Viol("C13_RollbackObs", C13_RollbackObs) /\ Viol("C13_DiscardObs", C13_DiscardObs) /\ Viol("C13_CommitNetObs", C13_CommitNetObs)
   /\ Viol("C13_UnevictObs", C13_UnevictObs) /\ Viol("C13_ClaimsObs", C13_ClaimsObs) /\ Viol("C13_NoPhantomObs", C13_NoPhantomObs)
   /\ Viol("C14_JobObs", C14_JobObs) /\ Viol("C14_QueueObs", C14_QueueObs) /\ Viol("C14_AcceptedObs", C14_AcceptedObs) /\ Viol("C14_VectorObs", C14_VectorObs)
-  /\ Viol("C14_NodeBaseObs", C14_NodeBaseObs)
+  /\ Viol("C14_NodeBaseObs", C14_NodeBaseObs) /\ Viol("C14_ClaimDevicesObs", C14_ClaimDevicesObs)
   /\ drifted \/ ( /\ Drift("D_Pods", D_Pods) /\ Drift("D_Nodes", D_Nodes) /\ Drift("D_Jobs", D_Jobs) /\ Drift("D_Queues", D_Queues)
                   /\ Drift("D_Ops", D_Ops) /\ Drift("D_Msg", D_Msg) /\ Drift("D_NoErr", D_NoErr) /\ Drift("D_CommitErr", D_CommitErr)
                   /\ Drift("D_Init", D_Init) /\ Drift("D_Shape", D_Shape) )
